@@ -245,6 +245,20 @@ def run(chk, repo, tier):
             detb = f'returns {fmt(p.ret)[:80]}, which is not a newly constructed Field'
     chk.ob('C06-e', 'D-flow', f.key, 'the merged field is a newly constructed Field (extent derived from its data and offset)', built, detb, f.loc())
 
+    # the public merge refuses two fields exactly when the caller asked for overlap to be enforced and they do not overlap:
+    # with enforce_overlap=False any two fields are summed
+    if repo.has_func('field.merge'):
+        fmg = repo.func('field.merge')
+        okm, detm = True, ''
+        for cfg, label in ((TRUE, 'True'), (FALSE, 'False')):
+            _, mp, _ = analyse(repo, fmg, config={'enforce_overlap': cfg})
+            raises = [p for p in mp if p.status == 'raise']
+            rets_m = [p for p in mp if p.status != 'raise']
+            if cfg == FALSE and (raises or not rets_m):
+                okm, detm = False, f'enforce_overlap=False still refuses [{conds_str(raises[0])[:80] if raises else "no returning path"}]'
+            if cfg == TRUE and not (raises and rets_m and all(any('overlap' in fmt(c) for c, _pl, _n in p.conds) for p in raises)):
+                okm, detm = (False, 'enforce_overlap=True does not refuse non-overlapping fields') if okm else (okm, detm)
+        chk.ob('C06-e', 'D-guard', fmg.key, 'merge refuses exactly: overlap enforced and the fields do not overlap', okm, detm, fmg.loc())
     slice_count_rule(chk, repo, 'C06-e')
     disjoint_rules(chk, repo)
 
